@@ -4,8 +4,9 @@ import common as C
 import gen as G
 import cont
 import decodeloop
+import containercodec
 
-MODEL_TARGETS = ["model/Container.vo", "model/DecodeLoop.vo"]
+MODEL_TARGETS = ["model/Container.vo", "model/DecodeLoop.vo", "model/ContainerCodec.vo", "model/ContainerReplay.vo"]
 COQ_TARGETS = ["props/C17.vo", "proofs/ConstsTie.vo"]
 THEOREMS = [("C17", ["C17_truncation_general", "C17_truncation_prefix", "C17_sync", "C17_data_left_in_block", "C17_count_too_small",
                      "C17_size_beyond_input", "C17_short_block", "C17_once", "C17_eof_sticky",
@@ -20,6 +21,7 @@ PROOF_FILES = ["proofs/ContainerReadProofs.v", "proofs/ContainerProofs.v", "proo
 TRUSTED_BASE = [
     "Coq 8.16.1 kernel; no axioms (Print Assumptions: closed)",
     "hand-written model/Container.v of reader/mod.rs + de/read/take.rs (NotInBlock / InBlock / Broken, per-block limit, sync check, error once then end of stream), null codec; tied by the correspondence run (item sequences of successive deserialize_next calls on damaged files, slice and chunked readers)",
+    "hand-written model/ContainerCodec.v (ccr_file: the reader of WHOLE files with compressed blocks -- cr_open, then per block count / size varints, negative checks, block_open / block_run of DecodeLoop.v or snappy_run, end-of-block check, sync marker, the chunk plan threaded through the blocks), tied to the crate by running the extracted function on every compressed file the run reads through `crt` (lib/containercodec.py, OCaml command `ccr`): same bytes, same kind of source (slice / the same chunk plan), the value decoder cc_vdec for the schema text of the header (Python json -> AST -> Parse.parse_schema), the codec named in the header, and a REPLAY streaming decoder (model/ContainerReplay.v) that answers from the reads hook H4 recorded for each block (bytes produced or Err, compressed bytes consumed = difference of the Take limits; a block finds its reads by the bytes its Take holds and the chunk-plan state at its first byte); compared: schema text, user metadata, the values before the first error (borrows erased), the way the run ends (end of stream; class of the first error: negative count/size, block cannot be opened, decoder Err / decompressed data left / Take not exhausted in the end check, sync mismatch, other = value error | unreadable count/size | short marker), under both extreme read policies (every refill a fill_buf; every refill of >= capacity outstanding bytes a bypassing read). TRUSTED in this tie: hook H4 records lengths only -- the BYTES of each read are the block's data decoded by the compression library on its own (harness `decode`, cross-checked against Python's zlib / bz2 / lzma on complete streams) sliced by the produced counts; snap::raw and CRC32 enter as tables (harness `decode snappy`, zlib.crc32); the runner's own walk of the file layout (block offsets for the replay keys). NOT tied by it: the request sizes on the model's real path (policy parameter; the end check's request is tied by `decend`), message texts, the per-call pretend_eof logic after the first error, runs too long for the list-based model (skipped and counted in coverage.notes), null-codec files (Container.cr_run). One tolerance (coverage.notes ... read_ahead): a decoder Err that reaches the crate's deserializer inside a value whose bytes were all out (read_slice calls fill_buf first, also for 0 bytes) fails that value in the crate; the model delivers it and meets the same Err afterwards",
     "hand-written model/DecodeLoop.v of reader/decompression.rs (BufReader over an abstract streaming decoder over Take, the end-of-block check, the snappy block with its CRC), tied to the crate by hook H4 (hooks/H4.diff): every end-of-block check the crate makes on the damaged files is replayed through the extracted model (same decoder request, same decision); the decoders are ABSTRACT (DecodeLoop.stream_decoder_contract, validated on the reads the crate made; not proved of the libraries); values: De.de on the decompressed bytes (abstraction stated in DecodeLoop.v)",
 ]
 ASSUMPTIONS = [
@@ -28,6 +30,7 @@ ASSUMPTIONS = [
     "proved (slice reader, null codec): truncation at ANY offset of ANY byte string yields the same items as the longer input until it stops (C17_truncation_general), for written files a prefix of the written values then only error/end (C17_truncation_prefix); sync mismatch, data left in block, size beyond input, count too small are errors; an unrecoverable error is reported once, then end of stream (C17_once)",
     "'count larger than the contents' is an error only when the missing datums cannot be decoded from nothing: with a schema whose values are empty (null) any count is accepted by construction of the format (count_too_large_null_schema_accepted)",
     "proved (ContainerDamageProofs.v, DePrefixProofs.v): a written file cut at ANY offset inside its header is refused with an error by the slice and the chunked reader (C17_header_truncation/_chunked); cut anywhere behind the header and read through the chunked reader (any plan, allocation cap >= file length): written metadata, a prefix of the written values, then at most one error and end of stream (C17_chunked_truncation_prefix); ARBITRARY bytes never make cr_open or any reader call panic (C17_corruption_no_panic); the datum decoder never depends on bytes behind what it consumed (C17_de_prefix_determinism), which gives value-level genuineness on damaged compressed blocks for the real value decoder (C17_compressed_values_genuine_de)",
+    "tested, not proved: that ccr_file is what the crate does on DAMAGED whole compressed files -- count lowered / raised, size -1 / -2 / +1, foreign bytes inside the size, the stream twice, snappy CRC / payload / short sizes / corrupted size varint (x capacities x sources), and the histories' compressed files cut inside the sync markers, block data, count / size varints and header or with the first count changed: same values before the first error and same class of error as the extracted model with the replayed decoder (coverage.notes whole_file_reader_model_vs_crate); the proofs about damaged compressed input are per BLOCK (DecodeLoopProofs.v), the whole-file reader model is only TESTED on damaged files",
     "decided on the crate: the compression libraries themselves (contract validated per run), single-byte corruptions of count / size / sync / CRC / payload for value-level outcomes, I/O errors",
 ]
 
@@ -219,6 +222,27 @@ def run(ctx):
     dd = decodeloop.run_damaged(random.Random(ctx["seed"] * 7919 + 117), ctx["tier"])
     violations.extend(dd["violations"])
     diffs.extend(dd["diffs"])
+    # WHOLE compressed files of the histories (real schemas), cut inside the sync markers, the block data, the count / size varints and
+    # the header, and with the first block's count lowered / raised: model of the compressed-file reader vs crate
+    wrng = random.Random(ctx["seed"] * 7919 + 1717)
+    wjobs = []
+    for fi, ((h, ops, expected, c, b, directed), res0) in enumerate(zip(hs, wr)):
+        p = cont.parse_cw(res0)
+        if c == "null" or p is None or p.get("build_err") or len(p["sink"]) > 4000:
+            continue
+        f, hdr = p["sink"], p["built"]
+        wjobs.extend(containercodec.truncation_jobs(wrng, f, len(expected) + 4, "%s file %d" % (c, fi), k=6 if ctx["tier"] == "quick" else 14))
+        if len(f) > hdr and 2 <= f[hdr] < 0x80 and f[hdr] % 2 == 0:
+            for delta, kind in ((-2, "count-lowered"), (2, "count-raised")):
+                g = bytearray(f)
+                g[hdr] = f[hdr] + delta
+                cap = 0 if c == "snappy" else wrng.choice([1, 7, 0])
+                mode = wrng.choice(["slice", "(chunks 1)", "(chunks 5)"])
+                wjobs.append({"file": bytes(g), "cap": cap, "mode": mode, "ncalls": len(expected) + 4, "where": "%s file %d %s capacity %d %s" % (c, fi, kind, cap, mode)})
+    wf = containercodec.compare(wjobs)
+    diffs.extend(wf["diffs"])
+    dd["notes"]["whole_file_reader_model_vs_crate(cut files, counts changed)"] = wf["notes"]
+    dd["evaluations"] += wf["evaluations"]
     samples = dd["samples"][:3] + samples
     for k, v in dd["distribution"].items():
         dist[("block-" + k.split("/")[0], k.split("/")[1])] += v
